@@ -138,6 +138,30 @@ func (p *Prop) Check(t *testing.T) {
 	})
 }
 
+// Fuzz runs the property under Go's native coverage-guided fuzzer: the
+// fuzzer's bytes are rapid's source of randomness, so generators, oracle and
+// replay format are the ones of Check. A failing execution writes the decoded
+// case like Check does (the last one written is the fuzzer's minimised input).
+func (p *Prop) Fuzz(f *testing.F) {
+	rec := stats.For(p.ID, p.Sub+"-fuzz")
+	f.Fuzz(rapid.MakeFuzz(func(rt *rapid.T) {
+		x := &Ctx{Rec: rec}
+		var c bson.D
+		var err error
+		if p.Live != nil {
+			c, err = p.safeLive(rt, x)
+		} else {
+			c = p.Gen(rt)
+			err = p.safeRun(c, x)
+		}
+		if err != nil {
+			frec := stats.For(p.ID, p.Sub)
+			frec.Fail(stats.ExtJSON(c), err.Error())
+			rt.Fatalf("%s/%s violated: %v", p.ID, p.Sub, err)
+		}
+	}))
+}
+
 // replayFile is the on-disk replay format.
 type replayFile struct {
 	Property string          `json:"property"`
@@ -261,5 +285,3 @@ func show(v interface{}) string {
 	return string(stats.ExtJSON(bson.D{{Key: "v", Value: v}}))
 }
 
-// fuzzRec returns a recorder for native fuzz targets.
-func fuzzRec(id, sub string) *stats.Rec { return stats.For(id, sub) }
